@@ -16,7 +16,7 @@ import re
 
 import sympy
 
-from engine.algebra import Algebra, LocalDefs
+from engine.algebra import data_slice,  Algebra, LocalDefs
 from engine.cfg import CFG
 from engine.extract import Request
 from engine.tree import key, root_of_lvalue, written_lvalues
@@ -32,6 +32,7 @@ def requests():
     r.append(Request(B + "ProjDataInfoCylindricalNoArcCorr.cxx", fn=["stir::ProjDataInfoCylindricalNoArcCorr::get_s"], files=["/repo/src/include/stir/ProjDataInfoCylindrical.*\\.inl"]))
     r.append(Request(B + "ProjDataInfoCylindrical.cxx", fn=["stir::ProjDataInfoCylindrical::ProjDataInfoCylindrical"]))
     r.insert(-1, Request(B + "ProjDataInfoGenericNoArcCorr.cxx", fn=["stir::ProjDataInfoGeneric::get_tantheta", "stir::ProjDataInfoCylindrical::get_tantheta"], files=["/repo/src/include/stir/ProjDataInfo.*\\.inl"]))
+    r.append(Request(B + "ProjDataInfoGenericNoArcCorr.cxx", fn=["stir::ProjDataInfoGeneric(NoArcCorr)?::get_(s|phi|m|tantheta)"], files=["/repo/src/include/stir/ProjDataInfoGeneric.*\\.inl"]))
     return r
 
 
@@ -380,6 +381,58 @@ def rule_d_mashed_view_centred(ctx, fns):
     return n
 
 
+def rule_f_generic_coordinates_from_one_line(ctx, fns):
+    """Blocks/generic geometries: (s, phi, m, tantheta) of a bin must describe ONE line - the line through its two detectors.  The
+    getters obtain it from get_LOR(lor, bin) (detector positions -> LOR in sinogram coordinates), so all four are components of the same
+    conversion.  A getter that takes the detector positions directly must use their transaxial coordinates as well: m is the axial
+    coordinate of the line's point closest to the scanner axis, z1 + t (z2 - z1) with t depending on x and y; a value that depends on the
+    z components only is that point only for crystals at equal radii (seed C12-4: mean of the two z)."""
+    RULE = "C12.f-generic-coordinates-from-one-line"
+    n = 0
+    seen = set()
+    for f in sorted(fns, key=lambda g: bool(g.is_dependent)):
+        if f.short not in ("get_s", "get_phi", "get_m", "get_tantheta") or f.body is None or not (f.cls or "").startswith("stir::ProjDataInfoGeneric") or len(f.params) != 1 or (f.file, f.body.line) in seen:
+            continue
+        seen.add((f.file, f.body.line))
+        binp = f.params[0]["d"]
+        defs = LocalDefs(f)
+        rets = [m for m in f.walk() if m.k == "ReturnStmt" and m.c]
+        if not rets:
+            continue
+        sl = []
+        for r in rets:
+            sl += data_slice(f, [r.c[0]], defs)
+        # locals filled by a call that takes them by reference together with the bin
+        filled = {}
+        for c in f.calls():
+            a = c.call_args()
+            if any(x.strip().k == "DeclRefExpr" and x.strip().get("d") == binp for x in a):
+                for x in a:
+                    xs = x.strip()
+                    if xs.k == "DeclRefExpr" and xs.get("dk") == "local":
+                        filled.setdefault(xs.get("d"), []).append((c.callee or "").split("::")[-1])
+        used = {m.get("d") for m in sl if m.k == "DeclRefExpr" and m.get("dk") == "local" and m.get("d") in filled}
+        sources = sorted({s_ for d in used for s_ in filled[d]})
+        other_getters = sorted({(c.callee or "").split("::")[-1] for c in f.calls() if (c.callee or "").split("::")[-1].startswith("get_") and (c.callee or "").split("::")[-1] not in ("get_LOR",) and any(x.strip().k == "DeclRefExpr" and x.strip().get("d") == binp for x in c.call_args()) and any(m is c for m in sl)})
+        if sources == ["get_LOR"]:
+            ok, det = True, "a component of the LOR that get_LOR(lor, bin) makes from the two detector positions"
+        elif not sources and other_getters:
+            ok, det = True, "defined through %s" % ", ".join(other_getters)
+        elif sources and "get_LOR" not in sources:
+            comps = {(m.callee or "").split("::")[-1] for m in sl if m.is_call() and (m.callee or "").split("::")[-1] in ("x", "y", "z") and m.call_object() is not None and m.call_object().strip().k == "DeclRefExpr" and m.call_object().strip().get("d") in used}
+            if comps and comps <= {"z"}:
+                ok, det = False, "computed from the detection points given by %s using their z components only: the axial coordinate of the line's point closest to the axis also depends on where the two crystals are transaxially (different radii in a block / crystal map), so this coordinate belongs to another line than s, phi and tantheta, which come from get_LOR" % ", ".join(sources)
+            else:
+                ctx.unrec(f.qn, "C12.f: coordinate computed from %s, not from get_LOR - cannot tell whether it is the same line" % ", ".join(sources))
+                continue
+        else:
+            ctx.unrec(f.qn, "C12.f: source of the returned coordinate not recognised (%s)" % (sources or other_getters))
+            continue
+        ctx.ob(RULE, f.qn, "source-of-" + f.short[4:], ok, f.where(), det)
+        n += 1
+    return n
+
+
 def run(ctx):
     ctx.explanation = (
         "Decides structural clauses only: (a) in every get_bin(LOR) implementation (arc-corrected, non-arc-corrected cylindrical, generic, "
@@ -407,11 +460,13 @@ def run(ctx):
             elif f.short == "find_bin_given_cartesian_coordinates_of_detection" and f.body is not None and f.cfg_raw and (f.file, f.line) not in seen:
                 seen.add((f.file, f.line))
                 rule_a_out_parameter(ctx, f)
-    accf = [f for u in us[len(UNITS) : -2] for f in u.functions]
+    accf = [f for u in us[len(UNITS) : -3] for f in u.functions]
     rule_c(ctx, accf)
-    rule_e_obliqueness_is_dz_over_chord(ctx, us[-2].functions)
+    rule_e_obliqueness_is_dz_over_chord(ctx, us[-3].functions)
     ctx.require_count("C12.e-obliqueness-over-transaxial-chord", 2)
-    rule_d_mashed_view_centred(ctx, us[-1].functions)
+    rule_d_mashed_view_centred(ctx, us[-2].functions)
+    rule_f_generic_coordinates_from_one_line(ctx, us[-1].functions)
+    ctx.require_count("C12.f-generic-coordinates-from-one-line", 4)
     ctx.require_count("C12.d-mashed-view-centred", 1)
     ctx.require_count("C12.a-range-test-after-last-modification", 9)
     ctx.require_count("C12.b-view-wrap-flips-all", 1)
